@@ -32,6 +32,7 @@ PROP = {
         "GunYu.Props.C18.refused_txn_emits_nothing",
         "GunYu.Props.C18.rdb_unit_single_slot_built",
         "GunYu.Props.C18.raw_first_key_commands",
+        "GunYu.Props.C18.raw_stream_commands",
     ],
     "gens": ["c18", "c10"],
     "expected_facts": {
@@ -61,7 +62,8 @@ PROP = {
             "must stop, nothing later sent; MOVED / ASK once: whole block re-sent to the named node, replay goes on); snapshot phase: buildBisyncRdbReplayUnit in "
             "cluster mode on string/hash/list/zset entries (split bins, keyExists replace/ignore, RESTORE or expanded, replace-hashtag on/off, 16 brace arrangements) "
             "-> execBisyncRdbUnit -> nodes (unit slot = HASH_SLOT(target key), every command on the target key, one block at the owner; the unit's command list diffed against the "
-            "model rdbCommands per unit); cluster-global lane "
+            "model rdbCommands per unit; the same for values of every type read by the REAL rdb.Loader and object parsers: streams with XSETID / XGROUP CREATE (key second) / XCLAIM, "
+            "sets, modules, IDLETIME / FREQ, 4.x and 7.x targets); cluster-global lane "
             "(bisyncRdbGlobalTargets with shuffled ranges, execBisyncRdbGlobalUnit over direct connections: one block per primary, marker on a slot that primary serves). "
             "Also: the builder's introspection connection cannot be opened while the client's COMMAND GETKEYS works (fb_builder=connfail): a command outside the tables must stop "
             "the replay, nothing of it sent; snapshot values of 1-200 elements (units beyond 64 commands: one block all the same, no block without the marker). "
@@ -95,12 +97,18 @@ PROP = {
                     "no monitor depends on a block being absent at a point in time except after that explicit wait; a run that reaches neither condition in 20 s is retried once "
                     "and only judged if it stalls again (counted loop_stalled_retry / loop_stalled_twice)"],
     "partial": ["CLOSED (was: rdb_unit_single_slot assumes hk): rdb_unit_single_slot_built takes the command list buildBisyncRdbReplayUnit assembles — modelled (rdbCommands: "
-                "RESTORE form with REPLACE iff keyExists=replace; expanded form = the object parser's commands with names lower-cased and the source key rewritten to the target "
-                "key at the static tables' key positions (rewriteBisyncRdbCommandKeys), `del <target>` prefix iff first bin and keyExists=replace, `pexpire <target> ttl` suffix) "
-                "and tied by a correspondence op per generated snapshot unit (c18 rdbcmds: real unit.Commands vs model, ttl/dump canonicalised) — and proves every business key the "
-                "builder's resolver names (any COMMAND GETKEYS fall-back) and every control key on the target key's slot. What is left is a hypothesis on the OBJECT PARSER's output "
-                "only (RawOn: each command names, by the static tables, key positions that all hold the entry's key and do not move under the rewriting); it is proved for the "
-                "tables' first-key class (raw_first_key_commands: set/hset/rpush/sadd/zadd/xadd) and is pkg/rdb's expansion otherwise (C20 / C03; XGROUP / module values not covered)",
+                "RESTORE form with IDLETIME/FREQ (target >= 5, non-zero) and REPLACE iff keyExists=replace; expanded form = the object parser's commands with names lower-cased and the "
+                "source key rewritten to the target key at the static tables' key positions (rewriteBisyncRdbCommandKeys), `del <target>` prefix iff first bin and keyExists=replace, "
+                "`pexpire <target> ttl` suffix) and tied by a correspondence op per snapshot unit (c18 rdbcmds: real unit.Commands vs model, ttl/dump canonicalised) that is fed "
+                "with what the REAL pkg/rdb object parsers hand over for generated values of every type the builder produces (string, list, set, zset, hash, stream with entries / "
+                "XSETID / a consumer group with pending entry and consumer, module; read by the real rdb.Loader, also with small bins) as well as by a scripted parser for units "
+                "of 65-200 commands — and proves every key the shared static tables name in the unit (what the cluster client's re-validation and a node see; the builder itself calls "
+                "no resolver) and every control key on the target key's slot. What is left is a hypothesis on the OBJECT PARSER's output only (RawOn: each command names, by the static "
+                "tables, key positions that all hold the entry's key and do not move under the rewriting); it is proved for everything pkg/rdb emits for keyed values: the first-key "
+                "class (raw_first_key_commands: set/hset/rpush/sadd/zadd/xadd, also as emitted in upper case) and streams (raw_stream_commands: XADD, XSETID, XCLAIM, XGROUP CREATE with "
+                "the key SECOND); module values take the RESTORE form or fail; that the emitted commands ARE on the entry's key is observed per unit by the monitor rdb-command-off-target-key "
+                "with key positions written from the command reference (cross-checked with the tool's tables: rdb-key-positions-differ), not proved about pkg/rdb (C20 / C03)",
+                "useRestore is an input of the op (the real bisyncRdbUseRestore decides it; C20 models that decision); argument formatting of non-byte values (float scores) is the tool's own",
                 "refused_txn_emits_nothing is a statement about the parser MODEL (Bisync.parse); the model is tied to parseAofReplayUnits by C13's parse ops (cluster mode "
                 "included), not by C18's own harness: C18's 'refusal emits nothing' rests on C13 passing too, plus the loop monitors here",
                 "a late block of a lane worker (parallel mode) that lands after the case's settle window is dropped by run id and cannot be judged (sent-after-refusal for a slow "
